@@ -64,6 +64,11 @@ class Facts:
                 pred = d.pred if truth else NEG[d.pred]
                 a, b = d.ops
                 res.add(norm_fact(pred, a, b))
+                # a signed comparison of two values that cannot be negative in the comparison's width (narrow unsigned values promoted to int,
+                # their sums, constants) says the same as the unsigned one: state both, so that rules written for `size_t` arithmetic read code
+                # that does the same arithmetic on `uint8_t` operands promoted to `int`
+                if pred in ("slt", "sle", "sgt", "sge") and self._nonneg(a) and self._nonneg(b):
+                    res.add(norm_fact("u" + pred[1:], a, b))
                 # (x != 0) where x is itself a boolean-like value: look through
                 if is_const(b) and const_val(b) == 0 and d.pred in ("ne", "eq"):
                     inner_truth = truth if d.pred == "ne" else (not truth)
@@ -102,6 +107,53 @@ class Facts:
 
     def _is_bool(self, d):
         return d.ty == "i1"
+
+    def _maxbits(self, o, depth=0):
+        """least k such that o is known to lie in [0, 2^k), or None"""
+        if is_const(o):
+            c = const_val(o)
+            return c.bit_length() if c is not None and c >= 0 else None
+        d = self.fn.defn(o)
+        if d is None or d.is_param or depth > 8:
+            return None
+        w = self.fn.mod.int_bits(d.ty) or 64
+        if d.op == "zext":
+            src = self.fn.defn(d.ops[0])
+            sw = (self.fn.mod.int_bits(src.ty) if src is not None else None) or w
+            inner = self._maxbits(d.ops[0], depth + 1)
+            return min(sw, inner) if inner is not None else sw
+        if d.op == "and":
+            ks = [k for k in (self._maxbits(x, depth + 1) for x in d.ops) if k is not None]
+            return min(ks) if ks else None
+        if d.op in ("lshr", "urem", "udiv"):
+            return self._maxbits(d.ops[0], depth + 1) if d.op != "urem" else (self._maxbits(d.ops[1], depth + 1) or self._maxbits(d.ops[0], depth + 1))
+        if d.op in ("add", "or", "xor"):
+            ka, kb = self._maxbits(d.ops[0], depth + 1), self._maxbits(d.ops[1], depth + 1)
+            if ka is None or kb is None:
+                return None
+            k = max(ka, kb) + (1 if d.op == "add" else 0)
+            return k if k < w else None
+        if d.op == "mul":
+            ka, kb = self._maxbits(d.ops[0], depth + 1), self._maxbits(d.ops[1], depth + 1)
+            if ka is None or kb is None or ka + kb >= w:
+                return None
+            return ka + kb
+        if d.op in ("phi", "select"):
+            vals = [v for v, _ in d.incoming] if d.op == "phi" else d.ops[1:]
+            ks = [self._maxbits(v, depth + 1) if v != ("v", d.id) else 0 for v in vals]
+            return max(ks) if ks and all(k is not None for k in ks) else None
+        return None
+
+    def _nonneg(self, o):
+        """o, read as a signed number of its own width, cannot be negative"""
+        k = self._maxbits(o)
+        if k is None:
+            return False
+        if is_const(o):
+            return True
+        d = self.fn.defn(o)
+        w = (self.fn.mod.int_bits(d.ty) if d is not None else None) or 64
+        return k < w
 
     def edge_facts(self, b, s):
         """facts established by taking edge b->s"""
@@ -422,6 +474,16 @@ class Matcher:
                 o = o[1].ops[0]
                 continue
             return o
+
+    def _trunc_keeps(self, d):
+        """the truncation cannot change the value: the operand is known to fit the narrow type, or is widened again to at most ... no: only a
+        known fit counts; plus the i1 truncations of boolean bytes the front end emits (`trunc i8 to i1` of a 0/1 flag)"""
+        from .lin import maxbits
+        tw = self.mod.int_bits(d.ty) or 64
+        if tw == 1:
+            return True
+        k = maxbits(self.fn, d.ops[0])
+        return k is not None and k <= tw
 
     def equiv(self, a, b):
         """same SSA value, or two loads of the same un-captured local with no
